@@ -15,6 +15,9 @@ type ChanObj struct {
 	Closed bool
 	Elem   types.Type
 	Tick   bool // a time.After channel: taking its tick lets (simulated) time pass
+	// cooperative goroutines blocked in a plain receive, in the order they blocked (Go hands a
+	// value to the longest waiter)
+	Waiters []*coro
 }
 type VChan struct{ C *ChanObj }
 
@@ -64,6 +67,18 @@ func (e *Exec) yield() {
 	}
 	e.curCoro = c
 	e.depth, e.fnStack = c.depth, c.fnStack
+}
+
+// maybePreempt: with preempt_sends, a goroutine may lose the processor right after a
+// successful channel send (a fresh decision per send, so both continuations are explored).
+func (e *Exec) maybePreempt() {
+	if !e.preempt || e.curCoro == nil {
+		return
+	}
+	e.nondet++
+	if e.decide(e.fresh(sprintf("preempt_%d", e.nondet), SBool)) {
+		e.yield()
+	}
 }
 
 // blockedStep is called when the running code cannot proceed with a channel operation; it
@@ -216,6 +231,9 @@ func (e *Exec) doSelect(fr *frame, in *ssa.Select) Value {
 	if idx >= 0 {
 		if ch, _ := e.val(fr, in.States[idx].Chan).(VChan); ch.C == nil || !ch.C.Tick {
 			e.progress++
+			if in.States[idx].Dir != types.RecvOnly {
+				defer e.maybePreempt()
+			}
 		} else if e.curCoro != nil {
 			e.yield() // a poller: time passes, the other goroutines run
 		}
